@@ -144,6 +144,26 @@ pub trait DiagramRules<E: Edge, N: InnerNode<E>, T> {
     fn cofactor(tag: E::Tag, node: &N, n: usize) -> Borrowed<'_, E> {
         Self::cofactors(tag, node).nth(n).expect("out of range")
     }
+
+    /// Get the `n`-th cofactor of the function represented by `edge` with
+    /// respect to a level that is skipped by `edge`, i.e., a level above the
+    /// level of the node referenced by `edge`
+    ///
+    /// This is needed, e.g., to swap adjacent levels. The default
+    /// implementation returns a clone of `edge` for every `n`, which is correct
+    /// for all diagram types where a skipped level means that the function
+    /// does not depend on the respective variable (e.g., BDDs). Diagram types
+    /// with different semantics of skipped levels (e.g., zero-suppressed
+    /// decision diagrams) need to override this method.
+    #[inline]
+    fn skipped_cofactor<M: Manager<Edge = E, InnerNode = N, Terminal = T>>(
+        manager: &M,
+        edge: &E,
+        n: usize,
+    ) -> E {
+        debug_assert!(n < N::ARITY);
+        manager.clone_edge(edge)
+    }
 }
 
 /// Result of the attempt to create a new node
